@@ -43,7 +43,12 @@ func (l *wlog) write(w io.Writer, p []byte) {
 		io.WriteString(w, string(p))
 		return
 	}
-	w.Write(p)
+	// io.Writer's contract: the callee must not retain p. The handler writes from a scratch buffer and reuses it at once.
+	scratch := append([]byte(nil), p...)
+	w.Write(scratch)
+	for i := range scratch {
+		scratch[i] = '#'
+	}
 }
 
 // plainProvider is a custom CompressorProvider without pooling.
